@@ -56,6 +56,10 @@ inductive RefinedStep : VM → VM → Prop
       event.ev.name = "StopFlow" → lookupArg "flow_instance_uid" event.ev.args = none →
       lookupArg "flow_id" event.ev.args = some (.str fid) →
       processInternalEvent fuel event vm = .ok r vm' → RefinedStep vm vm'
+  | finishIdEvent (fuel : Nat) (event : Event) (fid : String) (r : Event × List String) (vm vm' : VM) :
+      event.ev.name = "FinishFlow" → lookupArg "flow_instance_uid" event.ev.args = none →
+      lookupArg "flow_id" event.ev.args = some (.str fid) → (∀ u, LogInvisible fuel u event.scores) →
+      processInternalEvent fuel event vm = .ok r vm' → RefinedStep vm vm'
   | finishEvent (fuel : Nat) (event : Event) (uid : String) (r : Event × List String) (vm vm' : VM) :
       event.ev.name = "FinishFlow" → lookupArg "flow_instance_uid" event.ev.args = some (.str uid) →
       LogInvisible fuel uid event.scores →
@@ -162,6 +166,12 @@ theorem refinedStep_is_op (hν : Function.Injective ν) (hφ : Function.Injectiv
     intro op hop
     have := hops op hop
     cases op <;> first | trivial | exact absurd this (by simp [IsAbort])
+  | finishIdEvent fuel event fid r _ _ hname huid hfid hlog hr =>
+    obtain ⟨w', ops, hops, ha⟩ := corevm_finishflow_id_event_is_ops ν φ hν hφ fuel event vm vm' fid r hname huid hfid hw hlog hr
+    refine ⟨w', ops, ?_, ha⟩
+    intro op hop
+    have := hops op hop
+    cases op <;> first | trivial | exact absurd this (by simp [IsFinish])
   | finishEvent fuel event uid r _ _ hname huid hlog hr =>
     obtain ⟨_, t, ht, ha, w'⟩ := corevm_finishflow_event_is_op ν φ hν hφ fuel event vm vm' uid r hname huid hw hlog hr
     refine ⟨w', ?_⟩
